@@ -7,6 +7,7 @@ import (
 	"go/token"
 	"go/types"
 	"sort"
+	"strings"
 
 	"golang.org/x/tools/go/ssa"
 )
@@ -18,7 +19,7 @@ func init() {
 			{"packet.go", "\tcase PUBREC:\n\t\tp = &PubRec{fixed: f.fixed}", "\tcase PUBREC:\n\t\tp = &PubRel{fixed: f.fixed}"}}},
 		{Name: "flags-masked-away", Rule: "R16.1", Where: "0x30", Edits: []Edit{{"packet.go", "p = &Publish{fixed: f.fixed}", "p = &Publish{fixed: f.fixed & 0xF0}"}}},
 		{Name: "auth-case-missing", Rule: "R16.1", Where: "0xf0", Edits: []Edit{{"packet.go", "\tcase AUTH:\n\t\tp = &Auth{fixed: f.fixed}\n", ""}}},
-		{Name: "dispatch-mask-too-wide", Rule: "R16.1", Where: "mask", Edits: []Edit{{"packet.go", "switch byte(f.fixed) & 0b1111_0000 {", "switch byte(f.fixed) & 0b1111_1000 {"}}},
+		{Name: "dispatch-mask-too-wide", Rule: "R16.1", Where: "0x10", Edits: []Edit{{"packet.go", "switch byte(f.fixed) & 0b1111_0000 {", "switch byte(f.fixed) & 0b1111_1000 {"}}},
 		{Name: "constructor-wrong-nibble", Rule: "R16.2", Where: "PubComp", Edits: []Edit{{"pubcomp.go", "return &PubComp{fixed: bits(PUBCOMP)}", "return &PubComp{fixed: bits(PUBREC)}"}}},
 		{Name: "retain-reads-dup-bit", Rule: "R16.3", Where: "Retain", Edits: []Edit{{"publish.go", "func (p *Publish) Retain() bool     { return p.fixed.Has(RETAIN) }", "func (p *Publish) Retain() bool     { return p.fixed.Has(DUP) }"}}},
 		{Name: "qos-order-changed", Rule: "R16.3", Where: "QoS", Edits: []Edit{{"publish.go", "\tcase p.fixed.Has(QoS3):\n\t\treturn 3 // malformed\n\tcase p.fixed.Has(QoS1):\n\t\treturn 1", "\tcase p.fixed.Has(QoS1):\n\t\treturn 1\n\tcase p.fixed.Has(QoS3):\n\t\treturn 3 // malformed"}}},
@@ -27,6 +28,8 @@ func init() {
 		{Name: "decoder-resets-packet-to-constructor-defaults", Rule: "R16.6", Where: "(*Subscribe).UnmarshalBinary#keeps-first-byte", Edits: []Edit{{"subscribe.go", "func (p *Subscribe) UnmarshalBinary(data []byte) error {\n", "func (p *Subscribe) UnmarshalBinary(data []byte) error {\n\t*p = *NewSubscribe()\n"}}},
 		{Name: "decoder-normalises-reserved-bits", Rule: "R16.6", Where: "(*PubRel).UnmarshalBinary#keeps-first-byte", Edits: []Edit{{"pubrel.go", "func (p *PubRel) UnmarshalBinary(data []byte) error {\n", "func (p *PubRel) UnmarshalBinary(data []byte) error {\n\tp.fixed |= 2\n"}}},
 		{Name: "writeto-emits-constant-frame", Rule: "R16.5", Where: "(*PingResp).WriteTo", Edits: []Edit{{"pingresp.go", "\tb := make([]byte, p.width())\n\tp.fill(b, 0)\n\tn, err := w.Write(b)", "\tn, err := w.Write([]byte{PINGRESP, 0})"}}},
+		{Name: "empty-frame-shortcut-forgets-auth", Rule: "R16.1", Where: "0xf0", Edits: []Edit{{"packet.go", "\tif f.remainingLen == 0 {\n\t\treturn p, nil\n\t}", "\tif f.remainingLen == 0 && byte(f.fixed)&0xf0 != AUTH {\n\t\treturn p, nil\n\t}"}}},
+		{Name: "dispatch-through-constructors-with-header-store", Silent: true, Edits: []Edit{{"packet.go", "\t\tp = &PingReq{fixed: f.fixed}", "\t\tq := NewPingReq()\n\t\tq.fixed = f.fixed\n\t\tp = q"}}},
 		{Name: "switch-as-if-chain", Silent: true, Edits: []Edit{{"packet.go", "\tcase PINGREQ:\n\t\tp = &PingReq{fixed: f.fixed}\n\n\tcase PINGRESP:\n\t\tp = &PingResp{fixed: f.fixed}\n", "\tcase PINGRESP:\n\t\tp = &PingResp{fixed: f.fixed}\n\n\tcase PINGREQ:\n\t\tp = &PingReq{fixed: f.fixed}\n"}}},
 	}})
 }
@@ -98,13 +101,13 @@ func (p *Prog) firstEmissionValue(fn *ssa.Function, depth int) (ssa.Value, bool)
 }
 
 func checkC16(p *Prog, c *Check) {
-	c.Rule("R16.1", "the dispatch compares (first byte & 0xF0) with exactly the 15 MQTT type codes; each arm allocates the Go type the specification assigns to that code and stores the unmasked first byte into the field that type's encoder emits first; everything else yields Undefined")
+	c.Rule("R16.1", "ReadPacket, evaluated on each of the 256 first bytes followed by every property-less body the specification allows for the selected type (remaining length 0 included where the type allows it), returns without error a packet of the Go type the specification assigns to the upper nibble (type 0: Undefined) whose first-emitted field holds the byte received")
 	c.Rule("R16.2", "each constructor stores its type's code in the upper nibble of that field, with the reserved bits of the specification in the lower nibble")
 	c.Rule("R16.3", "Publish.Duplicate, QoS and Retain, as functions of that byte, are bit 3, bits 2–1 and bit 0 — on all 256 values")
 	c.Rule("R16.6", "the body decoder (UnmarshalBinary) of every dispatched type never writes the field holding the first byte, nor the packet as a whole: what the dispatch stored is what the packet carries")
 	c.Rule("R16.5", "each type's WriteTo goes through that encoder (shape rule of C10 R10.1), so the first byte written is the first byte carried")
 	c.Rule("R16.4", "Undefined.UnmarshalBinary puts a copy of its argument where Data() reads")
-	c.Explanation = "The dispatch is a finite structure: the comparison chain is extracted from the SSA form with its constants, arms and stored values and compared with the type table of MQTT v5.0 §2.1.2 carried by the checker (keyed by exported type names). The flag accessors are decision functions of one byte and are evaluated on all 256 values."
+	c.Explanation = "The dispatch is a finite function of the first byte: ReadPacket's SSA form (header reader, dispatch, zero-length handling, body decoder with the wire primitives replaced by their contracts) is evaluated abstractly on all 256 first bytes with specification-derived bodies and the result compared with the type table of MQTT v5.0 §2.1.2 carried by the checker (keyed by exported type names). The flag accessors are decision functions of one byte and are evaluated on all 256 values."
 	c.Trusted = []string{"go/types + go/ssa (x/tools v0.29.0) faithful IR", "the type-code table transcribed from MQTT v5.0 §2.1.2/§2.1.3"}
 	c.NotDecided = []string{"that decoding of the body succeeds for the bodies in the property's quantifier (C03)"}
 	rp, msg := p.readPacketAnchor()
@@ -112,185 +115,138 @@ func checkC16(p *Prog, c *Check) {
 		c.Bad("anchor", "ReadPacket", "-", msg)
 		return
 	}
-	// ---- R16.1: find the dispatch
-	type arm struct {
-		code  int64
-		iff   *ssa.If
-		typ   string
-		alloc *ssa.Alloc
-	}
-	var arms []arm
-	var disp *ssa.Function
-	var masked *ssa.BinOp
-	for _, fn := range sortedFuncs(p.Reach([]*ssa.Function{rp})) {
-		for _, b := range fn.Blocks {
-			for _, ins := range b.Instrs {
-				bo, ok := ins.(*ssa.BinOp)
-				if !ok || bo.Op != token.AND {
-					continue
-				}
-				if _, isC := constInt(bo.Y); !isC {
-					continue
-				}
-				// used by equality tests with constants?
-				n := 0
-				for _, r := range *bo.Referrers() {
-					if eq, ok := r.(*ssa.BinOp); ok && eq.Op == token.EQL {
-						if _, isC := constInt(eq.Y); isC {
-							n++
-						}
-					}
-				}
-				if n >= 8 {
-					disp, masked = fn, bo
-				}
-			}
-		}
-	}
-	if disp == nil {
-		c.Unk("R16.1", "dispatch", "-", "no comparison chain on (byte & mask) found in ReadPacket's call tree")
-		return
-	}
-	c.Fn(qname(disp))
-	mask, _ := constInt(masked.Y)
-	if mask != 0xF0 {
-		c.Bad("R16.1", "dispatch mask", posOf(p, masked), fmt.Sprintf("the type is selected with mask %#x, not the upper four bits 0xf0", mask))
-	} else {
-		c.OK("R16.1", "dispatch mask", posOf(p, masked), "type selected by (first byte & 0xf0)")
-	}
-	hdr := stripConvs(masked.X) // the unmasked first byte
-	pr := NewProver(p, disp)
-	for _, r := range *masked.Referrers() {
-		eq, ok := r.(*ssa.BinOp)
-		if !ok || eq.Op != token.EQL {
-			continue
-		}
-		k, isC := constInt(eq.Y)
-		if !isC {
-			continue
-		}
-		for _, r2 := range *eq.Referrers() {
-			iff, ok := r2.(*ssa.If)
-			if !ok {
-				continue
-			}
-			a := arm{code: k, iff: iff}
-			for _, ins := range iff.Block().Succs[0].Instrs {
-				if al, ok := ins.(*ssa.Alloc); ok {
-					if nt := namedOf(al.Type()); nt != nil {
-						a.typ, a.alloc = nt.Obj().Name(), al
-					}
-				}
-			}
-			arms = append(arms, a)
-		}
-	}
-	sort.Slice(arms, func(i, j int) bool { return arms[i].code < arms[j].code })
-	seen := map[int64]bool{}
-	for _, a := range arms {
-		cons := fmt.Sprintf("type code %#02x", a.code)
-		pos := posOf(p, a.iff)
-		want, inSpec := specPacketTypes[a.code]
-		switch {
-		case seen[a.code]:
-			c.Bad("R16.1", cons, pos, "code tested twice")
-			continue
-		case !inSpec:
-			c.Bad("R16.1", cons, pos, "not an MQTT v5.0 control packet type code")
-			continue
-		case a.typ != want:
-			c.Bad("R16.1", cons, pos, fmt.Sprintf("yields %s, the specification says %s", a.typ, want))
-			seen[a.code] = true
-			continue
-		}
-		seen[a.code] = true
-		// the unmasked byte is stored into the field the encoder emits first
-		fill := p.Method(a.typ, "fill")
-		var ef int
-		okE := false
-		if fill != nil {
-			ef, okE = p.firstEmissionField(fill)
-		}
-		hf, _, okH := p.headerField(a.typ)
-		stored := false
-		why := ""
-		for _, r := range *a.alloc.Referrers() {
-			fa, ok := r.(*ssa.FieldAddr)
-			if !ok {
-				continue
-			}
-			for _, r2 := range *fa.Referrers() {
-				st, ok := r2.(*ssa.Store)
-				if !ok || st.Addr != ssa.Value(fa) {
-					continue
-				}
-				if pr.key(stripConvs(st.Val)) == pr.key(hdr) {
-					if okE && fa.Field == ef {
-						stored = true
-					} else {
-						why = "the first byte is stored into a field the encoder does not emit first"
-					}
-				} else if okE && fa.Field == ef {
-					why = "the field emitted first receives " + describeVal(st.Val) + ", not the unmasked first byte"
-				}
-			}
-		}
-		switch {
-		case !okE:
-			c.Unk("R16.1", cons, pos, "cannot determine which field "+a.typ+"'s encoder emits first")
-		case okH && hf != ef:
-			c.Bad("R16.1", cons, pos, a.typ+"'s encoder emits a field first that is not the one its constructor puts the type code in")
-		case !stored:
-			if why == "" {
-				why = "the arm does not carry the first byte into the packet"
-			}
-			c.Bad("R16.1", cons, pos, why)
-		default:
-			c.OK("R16.1", cons, pos, fmt.Sprintf("→ %s, unmasked first byte stored in the field its encoder emits first", a.typ))
-		}
-	}
+	// ---- R16.1: ReadPacket evaluated on all 256 first bytes
 	var codes []int64
 	for k := range specPacketTypes {
 		codes = append(codes, k)
 	}
 	sort.Slice(codes, func(i, j int) bool { return codes[i] < codes[j] })
-	for _, k := range codes {
-		if !seen[k] {
-			c.Bad("R16.1", fmt.Sprintf("type code %#02x", k), p.Pos(disp.Pos()), "no dispatch arm for "+specPacketTypes[k])
+	c.Fn(qname(rp))
+	base := map[string]sv{}
+	specPairMem(base)
+	nEval := 0
+	for code := int64(0); code < 256; code += 16 {
+		tn, inSpec := specPacketTypes[code]
+		if !inSpec {
+			tn = "Undefined"
 		}
-	}
-	c.Measured["dispatch_arms"] = len(arms)
-	c.Floor("dispatch arms", len(arms), 15, "15 control packet types")
-	// default: the block reached when all tests fail allocates Undefined
-	{
-		def := ""
-		for _, b := range disp.Blocks {
-			for _, ins := range b.Instrs {
-				al, ok := ins.(*ssa.Alloc)
-				if !ok {
+		cons := fmt.Sprintf("type code %#02x", code)
+		um := p.Method(tn, "UnmarshalBinary")
+		if um == nil {
+			c.Bad("R16.1", cons, "-", "no type "+tn+" with an UnmarshalBinary method")
+			continue
+		}
+		pos := p.Pos(rp.Pos())
+		hf, _, okH := p.headerField(tn)
+		if inSpec {
+			fill := p.Method(tn, "fill")
+			ef, okE := 0, false
+			if fill != nil {
+				ef, okE = p.firstEmissionField(fill)
+			}
+			if !okE || !okH {
+				c.Unk("R16.1", cons, pos, "cannot determine which field "+tn+"'s encoder emits first / its constructor puts the type code in")
+				continue
+			}
+			if hf != ef {
+				c.Bad("R16.1", cons, pos, tn+"'s encoder emits a field first that is not the one its constructor puts the type code in")
+				continue
+			}
+		}
+		// bodies: every frame without properties the specification allows for the type (this includes the
+		// frames of remaining length 0 where the type allows one)
+		type body struct {
+			name string
+			toks []wireToken
+			qos  int64
+		}
+		var bodies []body
+		if !inSpec {
+			bodies = []body{{"remaining length 0", nil, -1}, {"5 arbitrary bytes", []wireToken{{"raw", 5, sv{k: 's', i: 5, addr: "spec:payload"}, "bytes"}}, -1}}
+		} else {
+			for _, f := range p.specFrames(tn) {
+				if !strings.Contains(f.name, "no properties") && !strings.Contains(f.name, "remaining length") {
 					continue
 				}
-				nt := namedOf(al.Type())
-				if nt == nil {
-					continue
+				q := int64(-1)
+				if k := strings.Index(f.name, "QoS "); k >= 0 {
+					fmt.Sscanf(f.name[k+4:], "%d", &q)
 				}
-				isArm := false
-				for _, a := range arms {
-					if a.alloc == al {
-						isArm = true
+				bodies = append(bodies, body{f.name, f.toks, q})
+			}
+		}
+		bad, unk := "", ""
+		n := 0
+		try := func(b int64, bd body) (string, string) {
+			var total int64
+			for _, t := range bd.toks {
+				total += t.Width
+			}
+			toks := bd.toks
+			if !inSpec {
+				toks = nil // Undefined keeps the body as it is; nothing is decoded through wire primitives
+			}
+			r := p.decoderReplay(tn, sv{k: 'i', i: b}, toks, total, base)
+			n++
+			where := fmt.Sprintf("first byte %#02x, body \"%s\": ", b, bd.name)
+			switch {
+			case r.Why != "":
+				return "", where + "cannot evaluate ReadPacket: " + r.Why
+			case r.Mismatch != "":
+				return where + r.Mismatch, ""
+			case r.Err.k != 'z':
+				return where + fmt.Sprintf("ReadPacket reports an error (after %d of %d items)", r.Consumed, len(toks)), ""
+			case r.Consumed != len(toks):
+				return where + fmt.Sprintf("the decoder stops after %d of %d items", r.Consumed, len(toks)), ""
+			case inSpec:
+				if v, ok := r.Mem[fmt.Sprintf("%s.f%d", r.Recv, hf)]; !ok || v.k != 'i' || v.i&0xff != b {
+					return where + fmt.Sprintf("the returned %s carries first byte %v: the byte received is not the byte the packet writes again", tn, v), ""
+				}
+			}
+			return "", ""
+		}
+		for low := int64(0); low < 16 && bad == "" && unk == ""; low++ {
+			b := code | low
+			q := (b >> 1) & 3
+			// QoS 3 is malformed but a first byte all the same: the body may or may not carry a packet identifier
+			// (either reading is accepted, tried in this order)
+			alts := []int64{q}
+			if q == 3 {
+				alts = []int64{0, 1}
+			}
+			for ai, aq := range alts {
+				b1, u1 := "", ""
+				for _, bd := range bodies {
+					if bd.qos >= 0 && bd.qos != aq {
+						continue
+					}
+					if b1, u1 = try(b, bd); b1 != "" || u1 != "" {
+						break
 					}
 				}
-				if _, isStruct := nt.Underlying().(*types.Struct); isStruct && !isArm && types.Implements(types.NewPointer(nt), p.LookupIface("ControlPacket")) {
-					def = nt.Obj().Name()
+				if b1 == "" && u1 == "" {
+					bad, unk = "", ""
+					break
+				}
+				if ai == 0 {
+					bad, unk = b1, u1
 				}
 			}
 		}
-		if def == "Undefined" {
-			c.OK("R16.1", "default arm", p.Pos(disp.Pos()), "every other value (type 0) yields Undefined")
-		} else {
-			c.Bad("R16.1", "default arm", p.Pos(disp.Pos()), "values outside the 15 codes do not yield Undefined (got "+def+")")
+		nEval += n
+		switch {
+		case unk != "":
+			c.Unk("R16.1", cons, pos, unk)
+		case bad != "":
+			c.Bad("R16.1", cons, pos, bad)
+		case n < 16:
+			c.Unk("R16.1", cons, pos, "no valid body available for some first bytes of this type")
+		default:
+			c.OK("R16.1", cons, pos, fmt.Sprintf("→ %s on all 16 first bytes × %d bodies (%d evaluations of ReadPacket); the byte received is in the field the encoder emits first", tn, len(bodies), n))
 		}
 	}
+	c.Measured["readpacket_evaluations"] = nEval
+	c.Floor("dispatch evaluations", nEval, 256, "256 first bytes")
 
 	// ---- R16.5: WriteTo of every dispatched type uses the encoder examined above
 	for _, k := range codes {
